@@ -9,7 +9,7 @@ CONSTANTS
   MaxOut = 2
   MaxExtraOut = 1
   AllowNone = TRUE
-  LeafChoices <- LeafQuick
+  LeafChoices <- LeafBoth
   Kinds = {"graph", "function"}
   MaxOutsCard = 9
   Growing = FALSE
